@@ -222,6 +222,10 @@ def rules(vb: VB, features, group):
     add(decl("T", "f64", "validate(greater_or_equal = 1e1, less_or_equal = 5.0)"), R, "R7:bounds:exponent-literal")
     add(decl("T", "f32", "validate(greater = 2.5, less_or_equal = 2.5)"), R, "R7:bounds:equal-float-exclusive")
     add(decl("T", "i32", "validate(greater = 1_0, less = 2_0)"), A, "R7:bounds:underscored-literals-neighbour")
+    add(decl("T", "f64", "validate(greater_or_equal = 1_000.0, less_or_equal = 999.5)"), R, "R7:bounds:underscored-float-literals")
+    add(decl("T", "f32", "validate(greater = 1_0.5, less = 1_0.25)"), R, "R7:bounds:underscored-float-literals")
+    add(decl("T", "f64", "validate(less = 1_000.5, greater = 2_000.5)"), R, "R7:bounds:underscored-float-literals")
+    add(decl("T", "f64", "validate(greater_or_equal = 999.5, less_or_equal = 1_000.0)"), A, "R7:bounds:underscored-float-literals-neighbour")
     add(decl("T", "i32", "validate(greater = -3, less = -5)"), R, "R7:bounds:negative")
     add(decl("T", "i32", "validate(greater = -5, less = -3)"), A, "R7:bounds:negative-neighbour")
     add(decl("T", "String", "validate(len_char_min = 5, len_char_max = 3)"), R, "R7:len-bounds")
@@ -539,6 +543,15 @@ def generated_tests_cases():
     add("String", "sanitize(trim), validate(not_empty), derive(Default), default = \"  \"", "", T3, True)
     add("String", "sanitize(trim), validate(len_char_max = 3), derive(Default), default = \"  Bob  \"", "", T3, False)
     add("String", "validate(len_char_max = 3), derive(Default), default = \"  Bob  \"", "", T3, True)
+    # custom `with`/`error` validation: the default-value test must be planted there too
+    cerr = ("#[derive(Debug)] pub enum E { Bad }\nimpl ::core::fmt::Display for E { fn fmt(&self, f: &mut ::core::fmt::Formatter<'_>) -> ::core::fmt::Result { write!(f, \"bad\") } }\n"
+            "impl ::std::error::Error for E {}\n")
+    add("i32", "validate(with = chk, error = E), derive(Default), default = -5", cerr + "fn chk(x: &i32) -> Result<(), E> { if *x > 0 { Ok(()) } else { Err(E::Bad) } }", T3, True)
+    add("i32", "validate(with = chk, error = E), derive(Default), default = 5", cerr + "fn chk(x: &i32) -> Result<(), E> { if *x > 0 { Ok(()) } else { Err(E::Bad) } }", T3, False)
+    add("f64", "validate(with = chk, error = E), derive(Default), default = f64::NAN", cerr + "fn chk(x: &f64) -> Result<(), E> { if *x >= 0.0 { Ok(()) } else { Err(E::Bad) } }", T3, True)
+    add("f32", "validate(with = chk, error = E), derive(Default), default = 1.5", cerr + "fn chk(x: &f32) -> Result<(), E> { if *x >= 0.0 { Ok(()) } else { Err(E::Bad) } }", T3, False)
+    add("String", "validate(with = chk, error = E), derive(Default), default = \"\"", cerr + "fn chk(x: &str) -> Result<(), E> { if !x.is_empty() { Ok(()) } else { Err(E::Bad) } }", T3, True)
+    add("Vec<i32>", "validate(with = chk, error = E), derive(Default), default = vec![]", cerr + "fn chk(x: &Vec<i32>) -> Result<(), E> { if !x.is_empty() { Ok(()) } else { Err(E::Bad) } }", T3, True)
     add("Vec<i32>", "validate(predicate = |v| !v.is_empty()), derive(Default), default = vec![]", "", T3, True)
     add("Vec<i32>", "validate(predicate = |v| !v.is_empty()), derive(Default), default = vec![1]", "", T3, False)
     return out
